@@ -1,10 +1,59 @@
-"""Assembles DESIGN.md from design/part1.md (the design written before the code), design/part2.md (as built)
-and the per-property notes notes/Cxx.md (appendix D)."""
-import glob, os, re
+"""Assembles DESIGN.md from design/part1.md (the design written before the code), design/part2.md (as built, with
+generated tables) and the per-property notes notes/Cxx.md (appendix D)."""
+import glob, json, os, re
 root = os.path.dirname(os.path.dirname(os.path.abspath(__file__)))
-p1 = open(f'{root}/design/part1.md').read()
-p2 = open(f'{root}/design/part2.md').read()
-out = [p1.rstrip(), '\n\n---\n\n', p2.rstrip(), '\n\n---\n\n# Appendix D — per-property notes of the builders (as built)\n']
+rd = lambda p: open(f'{root}/{p}').read()
+def lines(pattern):
+    return sum(len(open(f).read().splitlines()) for f in glob.glob(f'{root}/{pattern}'))
+props = [json.loads(l) for l in rd('properties.jsonl').splitlines() if l.strip()]
+man = json.loads(rd('MANIFEST.json'))
+claimed = {c['property_id']: c for c in man['checks']}
+kf = json.loads(rd('known_findings.json'))
+partial = json.loads(rd('design/partial.json')) if os.path.exists(f'{root}/design/partial.json') else {}
+
+def esc(s):
+    return str(s).replace('|', '\\|').replace('\n', ' ')
+
+rows = ['| id | title | model / lemmas / props / harness (lines) | obligations | repairs | findings | partial clauses |', '|---|---|---|---|---|---|---|']
+for p in props:
+    i = p['id']; n = i[1:]
+    if i not in claimed:
+        rows.append(f"| {i} | {esc(p['title'])} | — | — | — | — | not claimed (section 18) |")
+        continue
+    ev = {}
+    try:
+        ev = json.loads(rd(f'evidence/{i}.json'))['coverage']
+    except Exception:
+        pass
+    nfix = sum(1 for f in kf['fixed'] if f['property'] == i)
+    nfind = sum(1 for f in kf['findings'] if f['property'] == i)
+    extra = ' (shared M-PROP in Model/C01)' if i in ('C02', 'C04') else ''
+    rows.append(f"| {i} | {esc(p['title'])} | {lines(f'lean/CBV/Model/C{n}.lean')} / {lines(f'lean/CBV/Lemmas/C{n}*.lean')} / "
+                f"{lines(f'lean/CBV/Props/C{n}.lean')} / {lines(f'cbv/props/c{n}.py')}{extra} | {ev.get('obligations', '?')} | {nfix} | {nfind} | "
+                f"{esc(partial.get(i, ev.get('partial') or '—'))} |")
+status = '\n'.join(rows)
+
+fixed = ['| property | commit | what failed before |', '|---|---|---|'] + [f"| {f['property']} | `{f['commit'][:7]}` | {esc(f['what'])} |" for f in sorted(kf['fixed'], key=lambda f: f['property'])]
+finds = ['| property | site | what fails |', '|---|---|---|'] + [f"| {f['property']} | `{f['site']}` | {esc(f['what'])} |" for f in kf['findings']]
+
+res = json.loads(rd('seeded/results.json')) if os.path.exists(f'{root}/seeded/results.json') else {}
+seeded = ['| id | change | needs | own check | caught by |', '|---|---|---|---|---|']
+for d in sorted(glob.glob(f'{root}/seeded/*/meta.json')):
+    sid = os.path.basename(os.path.dirname(d))
+    m = json.load(open(d))
+    r = res.get(sid, {})
+    own = r.get(m.get('property', sid[:3]), '?')
+    others = ', '.join(sorted(k for k, v in r.items() if v == 'caught' and k != m.get('property')))
+    seeded.append(f"| {sid} | {esc(m.get('summary', ''))[:260]} | {esc(m.get('needs', ''))[:200]} | {own} | {others or '—'} |")
+na = ['| property | reason it is not claimed |', '|---|---|'] + [f"| {x['property_id']} | {esc(x['reason'])} |" for x in man.get('not_applicable', [])]
+if len(na) == 2:
+    na = ['All twenty properties are claimed; none is listed as not applicable.']
+
+p2 = rd('design/part2.md')
+for key, val in (('@@STATUS_TABLE@@', status), ('@@FIXED_TABLE@@', '\n'.join(fixed)), ('@@FINDINGS_TABLE@@', '\n'.join(finds)),
+                 ('@@SEEDED_TABLE@@', '\n'.join(seeded)), ('@@NA_TABLE@@', '\n'.join(na))):
+    p2 = p2.replace(key, val)
+out = [rd('design/part1.md').rstrip(), '\n\n---\n\n', p2.rstrip(), '\n\n---\n\n# Appendix D — per-property notes of the builders (as built)\n']
 for f in sorted(glob.glob(f'{root}/notes/C*.md')):
     t = open(f).read().rstrip()
     t = re.sub(r'^(#+) ', lambda m: '#' * (len(m.group(1)) + 1) + ' ', t, flags=re.M)  # demote headings
